@@ -48,6 +48,7 @@ class FunctionReport:
     error: Optional[str] = None
     wall_s: float = 0.0
     inlined: List[str] = field(default_factory=list)
+    used_trusted: List[str] = field(default_factory=list)
     normal_paths: int = 0
     exc_paths: int = 0
 
@@ -173,6 +174,7 @@ def verify_function(qualname: str, contract: Contract) -> FunctionReport:
     rep.paths = run.paths_explored
     rep.pruned = run.paths_pruned
     rep.inlined = sorted(getattr(run, "inlined", set()))
+    rep.used_trusted = sorted(getattr(run, "used_trusted", set()))
     for ob in run.obligations:
         (rep.canaries if ob.kind == "canary" else rep.obligations).append(ob)
     rep.wall_s = time.time() - t0
